@@ -181,3 +181,31 @@ pub fn bad_loop_guard(a: &[u8; 8]) -> u8 {
     }
     s
 }
+pub fn ok_const_range(a: &[i32; 7]) -> i32 {
+    let mut acc = 0i32;
+    for j in (0..7).rev() {
+        acc = acc.wrapping_add(a[j]);
+    }
+    acc
+}
+pub fn bad_const_range(a: &[i32; 7]) -> i32 {
+    let mut acc = 0i32;
+    for j in (0..8).rev() {
+        acc = acc.wrapping_add(a[j]);
+    }
+    acc
+}
+pub fn bad_counter_index(a: &[i32; 7], n: usize) -> i32 {
+    let mut acc = 0i32;
+    let mut j = 0usize;
+    for _ in 0..n {
+        if j < 7 {
+            acc = acc.wrapping_add(1);
+        }
+        j += 1;
+    }
+    for k in (0..j).rev() {
+        acc = acc.wrapping_add(a[k]);
+    }
+    acc
+}
